@@ -51,6 +51,10 @@ def configs(tier):
             out.append(dict(key=f"cat-dissim={cd},output={outm},files=1", cd=cd, out=outm, files=1, cost=30))
     for outm in ("print", "json") + (("csv",) if tier == "thorough" else ()):
         out.append(dict(key=f"cat-dissim=absolute,output={outm},files=2", cd="absolute", out=outm, files=2, cost=100))
+    # two files whose category sets differ (the second is a subset of the first): each file is measured with its own dissimilarity
+    for cd in declared_choices():
+        if cd != "absolute":
+            out.append(dict(key=f"cat-dissim={cd},output=json,files=2,different-categories", cd=cd, out="json", files=2, light=True, cost=100))
     return out
 
 
@@ -97,11 +101,17 @@ def harness(cfg, ns):
         SymNum.__format__ = lambda self, spec: tok(self)
         SymNum.__str__ = lambda self: tok(self)
         files = [FakePath(f"f{i}.csv") for i in range(cfg["files"])]
-        fmt = ["csv", "rttm"][ctx.choose(2, tag="format")]
-        mathet = bool(ctx.choose(2, tag="mathet"))
-        g_cat = bool(ctx.choose(2, tag="gcat"))
-        g_k = bool(ctx.choose(2, tag="gk"))
-        seeded = bool(ctx.choose(2, tag="seeded"))
+        if cfg.get("light"):
+            fmt, mathet, g_cat, seeded = "csv", False, True, True
+            g_k = bool(ctx.choose(2, tag="gk"))
+        else:
+            fmt = ["csv", "rttm"][ctx.choose(2, tag="format")]
+            mathet = bool(ctx.choose(2, tag="mathet"))
+            g_cat = bool(ctx.choose(2, tag="gcat"))
+            g_k = bool(ctx.choose(2, tag="gk"))
+            seeded = bool(ctx.choose(2, tag="seeded"))
+        from sortedcontainers import SortedSet
+        CATS = {str(f): (["a", "b"] if i == 0 else ["a"]) for i, f in enumerate(files)}
         A = dict(alpha=ctx.fresh("alpha"), beta=ctx.fresh("beta"), empty_delta=ctx.fresh("empty_delta"), precision_level=ctx.fresh("precision"),
                  n_samples=ctx.fresh("n_samples", integer=True), seed=ctx.fresh("seed", integer=True))
         args = types.SimpleNamespace(input_csv=files, separator=";", seed=A["seed"] if seeded else None, format=fmt,
@@ -125,7 +135,7 @@ def harness(cfg, ns):
         class Cont:
             def __init__(self, path):
                 self.path = path
-                self.categories = ["a", "b"]
+                self.categories = SortedSet(CATS[str(path)])
 
             def compute_gamma(self, *a, **kw):
                 import inspect
@@ -170,6 +180,13 @@ def harness(cfg, ns):
                 def __init__(self, *a, **k):
                     self.a, self.k, self.name = a, k, name
                     log["cat" if name in ("lev", "num") else ("combined" if name == "comb" else "sampler")].append(self)
+                    # the attributes client code may read on the real objects
+                    if name in ("lev", "num"):
+                        self.categories = SortedSet((list(a) + list(k.values()))[0])
+                    elif name == "comb":
+                        cdm = k.get("cat_dissim", a[4] if len(a) > 4 else None)
+                        self.categories = None if cdm is None else cdm.categories
+                        self.alpha, self.beta, self.delta_empty = k.get("alpha"), k.get("beta"), k.get("delta_empty")
             return R
         printed, csv_rows, json_docs, opened = [], [], [], []
 
@@ -240,13 +257,16 @@ def harness(cfg, ns):
         o.append(Obl("each-file-loaded-with-the-requested-reader-and-separator", log["load"] == want_load, rz))
         o.append(Obl("seed-set-iff-given-and-before-any-computation", (rng.seeded == ([A["seed"]] if seeded else [])) and
                      (not seeded or log["events"].index("seed") < log["events"].index("compute")), rz))
-        o.append(Obl("one-dissimilarity-and-one-computation-per-file", len(log["combined"]) == len(files) == len(log["gamma"]), rz))
+        o.append(Obl("one-computation-per-file", len(files) == len(log["gamma"]), rz))
         want_cat = {"absolute": None, "numerical": "num", "levenshtein": "lev", "ordinal": "num"}.get(cfg["cd"], "?")
         for i, f in enumerate(files):
-            if i >= len(log["combined"]) or i >= len(log["gamma"]):
+            if i >= len(log["gamma"]):
                 break
-            comb = log["combined"][i]
             cont, kw = log["gamma"][i]
+            comb = kw.get("dissimilarity")          # whatever object reaches the computation of THIS file is judged
+            if getattr(comb, "name", None) != "comb":
+                o.append(Obl("compute_gamma-receives-a-combined-dissimilarity", False, rz))
+                continue
             # positional or keyword arguments alike: bound against the real constructor's signature
             import inspect
             try:
@@ -256,10 +276,13 @@ def harness(cfg, ns):
             o.append(Obl("alpha-beta-delta_empty-forwarded", k.get("alpha") is A["alpha"] and k.get("beta") is A["beta"]
                          and k.get("delta_empty") is A["empty_delta"], rz))
             cd = k.get("cat_dissim")
+            built_from = None if cd is None else list((list(cd.a) + list(cd.k.values()))[0])
+            # numerical values are normalised by the largest distance between the categories it was built from: exactly this file's
+            # categories; Levenshtein entries do not depend on the other categories: any superset gives the same numbers
             ok_cat = (cd is None) if want_cat is None else (cd is not None and getattr(cd, "name", None) == want_cat and
-                                                                 list((list(cd.a) + list(cd.k.values()))[0]) == ["a", "b"])
+                                                                 (built_from == CATS[str(f)] or (want_cat == "lev" and set(built_from) >= set(CATS[str(f)]))))
             o.append(Obl(f"categorical-dissimilarity-option-takes-effect[{cfg['cd']}]", ok_cat, rz))
-            o.append(Obl("compute_gamma-receives-the-options", cont.path is f and kw.get("dissimilarity") is comb and kw.get("precision_level") is A["precision_level"]
+            o.append(Obl("compute_gamma-receives-the-options", cont.path is f and kw.get("precision_level") is A["precision_level"]
                          and kw.get("n_samples") is A["n_samples"] and kw.get("fast") is True and not kw.get("soft", False)
                          and kw.get("ground_truth_annotators") is None, rz))
             smp = kw.get("sampler")
@@ -276,7 +299,7 @@ def harness(cfg, ns):
             if g_cat:
                 e["gamma-cat"] = r.gamma_cat
             if g_k:
-                e["gamma-k"] = {c: r.gamma_k(c) for c in ["a", "b"]}
+                e["gamma-k"] = {c: r.gamma_k(c) for c in CATS[str(f)]}
             return e
         co.ThreadPoolExecutor = stubs.DeferredExecutor.make()
         al.Alignment.gamma_k_disorder = gk_spy
@@ -295,7 +318,7 @@ def harness(cfg, ns):
                 if g_cat:
                     want_lines.append(("gamma-cat=", e["gamma-cat"]))
                 if g_k:
-                    for c in ["a", "b"]:
+                    for c in CATS[str(f)]:
                         want_lines.append((f"gamma-k('{c}')=", e["gamma-k"][c]))
                 for kind_, v in want_lines:
                     if pos >= len(lines):
@@ -330,7 +353,7 @@ def harness(cfg, ns):
                     ok = same(row[j], wantrow[j])
                     j += 1
                 if ok and g_k:
-                    ok = isinstance(row[j], dict) and sorted(row[j]) == ["a", "b"] and all(same(row[j][c], wantrow[j][c]) for c in "ab")
+                    ok = isinstance(row[j], dict) and sorted(row[j]) == CATS[str(f)] and all(same(row[j][c], wantrow[j][c]) for c in CATS[str(f)])
             o.append(Obl("csv-numbers==API-results-per-file", ok, rz))
         else:
             ok = len(json_docs) == 1 and opened == [("out.json", "w")]
@@ -342,7 +365,7 @@ def harness(cfg, ns):
                         break
                     e, d = exp[f], doc[str(f)]
                     ok = sorted(d) == sorted(e) and same(d["gamma"], e["gamma"]) and (not g_cat or same(d["gamma-cat"], e["gamma-cat"])) and \
-                        (not g_k or (sorted(d["gamma-k"]) == ["a", "b"] and all(same(d["gamma-k"][c], e["gamma-k"][c]) for c in "ab")))
+                        (not g_k or (sorted(d["gamma-k"]) == CATS[str(f)] and all(same(d["gamma-k"][c], e["gamma-k"][c]) for c in CATS[str(f)])))
             o.append(Obl("json-numbers==API-results-per-file", ok, rz))
         return o
     return h
@@ -420,7 +443,26 @@ def replay(case):
         if case.get("files", 1) >= 2:
             # two different input files in one invocation: each file's entry must be its own API result
             try:
-                src2 = os.path.join(os.path.dirname(src), "annotation_paul_suzann_alex.csv")
+                # a second file whose categories are a strict subset of the first one's, with another largest distance
+                src_wide, src2 = os.path.join(d, "wide.csv"), os.path.join(d, "narrow.csv")
+                with open(src_wide, "w") as f:
+                    for a_, rows_ in (("ann1", [("1", 0, 5), ("2", 6, 10), ("10", 12, 18)]), ("ann2", [("1", 0.5, 5.5), ("10", 6, 11), ("2", 12, 17)]),
+                                      ("ann3", [("2", 1, 5), ("2", 6.5, 10), ("10", 13, 18)])):
+                        for lab_, s_, e_ in rows_:
+                            f.write(f"{a_},{lab_},{s_},{e_}\n")
+                with open(src2, "w") as f:
+                    for a_, rows_ in (("ann1", [("1", 0, 5), ("2", 6, 10), ("1", 12, 18)]), ("ann2", [("2", 0.5, 5.5), ("2", 6, 11), ("1", 12, 17)]),
+                                      ("ann3", [("1", 1, 5), ("2", 6.5, 10), ("2", 13, 18)])):
+                        for lab_, s_, e_ in rows_:
+                            f.write(f"{a_},{lab_},{s_},{e_}\n")
+                src_keep = src
+                src = src_wide
+                cont_w = pa.Continuum.from_csv(src)
+                cat = None
+                if cd == "levenshtein":
+                    cat = pa.LevenshteinCategoricalDissimilarity(cont_w.categories)
+                elif cd == "numerical":
+                    cat = pa.NumericalCategoricalDissimilarity(cont_w.categories)
                 c2 = pa.Continuum.from_csv(src2)
                 cat2 = None
                 if cd == "levenshtein":
@@ -437,6 +479,7 @@ def replay(case):
                 g2 = float(r2.gamma)
                 pj2 = os.path.join(d, "o2.json")
                 argv_keep = list(argv0)
+                argv0[0] = src
                 argv0.insert(1, src2)
                 try:
                     run(["-j", pj2])
